@@ -74,6 +74,9 @@ EXPR.update({
     "JoinedStr.a": "f'{_c0!a}'", "JoinedStr.spec": "f'{_c0:>10}'", "JoinedStr.nested": "f'{_c0:{_c1}}'",
     "NamedExpr": "(x := _c0)",
     "Constant": "42",
+    "ListComp.1": "[_c1 for x in _c0]", "ListComp.if": "[_c1 for x in _c0 if _c2]", "ListComp.2gen": "[_c2 for x in _c0 for y in _c1]",
+    "ListComp.tuple-target": "[_c1 for a, b in _c0]",
+    "SetComp.1": "{_c1 for x in _c0}", "DictComp.1": "{_c1: _c2 for x in _c0}",
 })
 STMT = {
     "Assign.name": "x = _c0", "Assign.multi": "x = y = _c0", "Assign.subscript": "_c0[_c1] = _c2", "Assign.attribute": "_c0.attr = _c1",
@@ -89,12 +92,16 @@ STMT = {
 def native_source(src):
     """Template source with opaque children written as tracer calls t(k) (for the native replay)."""
     import re
+    if src.startswith("_c0("):
+        src = "fn(0)" + src[3:]  # the callee of a call template is a plain function (see ASSUMPTIONS)
     return re.sub(r"_c(\d+)", r"t(\1)", src)
 
 
 def h_template(name, src, mode):
     def h(eng):
         H = EvalHarness(eng)
+        if name in ("ListComp.2gen", "ListComp.tuple-target"):
+            H.it.ITER_BOUND = 1  # nested iteration: one element per iterable (shape bound)
         node = template(src, mode)
         U = f"C01/{name}"
         impl = H.run_impl(node)
@@ -115,10 +122,39 @@ def replay_template(wj):
     return run_native("c01_template", wj, timeout=300)
 
 
+def b_adequacy(seed):
+    """Bounded stand-in AND adequacy check of the spec functions: every template is also run natively, the real
+    AstEval against CPython, with scripted tracers (all operand truthiness assignments x a failure injected at each of
+    the first 10 events x iterable lengths 0/2/3).  A template whose obligations are discharged but which differs here
+    would expose a wrong spec or engine."""
+    from concurrent.futures import ThreadPoolExecutor
+    from replay.native import run_native
+    items = [(n, native_source(s), "eval") for n, s in EXPR.items()] + [(n, native_source(s), "exec") for n, s in STMT.items()]
+
+    def one(it):
+        n, src, mode = it
+        r = run_native("c01_template", {"source": src, "mode": mode}, timeout=600)
+        return n, src, r
+    failures, tried = [], 0
+    with ThreadPoolExecutor(max_workers=16) as ex:
+        for n, src, r in ex.map(one, items):
+            tried += r.get("tried", 0)
+            if r.get("reproduced"):
+                failures.append({"signature": n, "template": n, "source": src, "observed": r.get("observed")})
+            elif "error" in r:
+                failures.append({"signature": n + ":replay-error", "template": n, "error": r["error"][-500:]})
+    return {"unit": "AstEval vs CPython on every C01 template", "method": "native differential with scripted tracers",
+            "bound": "per template: 2^min(k,3) truthiness assignments x 11 failure positions x 3 iterable lengths (+ None-valued presets)",
+            "cases": tried, "failures": failures}
+
+
 def harnesses():
     hs = []
+    heavy = {"ListComp.2gen", "ListComp.tuple-target"}  # nested iteration: thorough tier (larger budget)
     for name, src in EXPR.items():
-        hs.append(Harness(name, h_template(name, src, "eval"), units=[(E_PY, "AstEval.aeval")], replay=replay_template, max_paths=3000))
+        hs.append(Harness(name, h_template(name, src, "eval"), units=[(E_PY, "AstEval.aeval")], replay=replay_template, max_paths=6000,
+                          tier="thorough" if name in heavy else "quick"))
     for name, src in STMT.items():
         hs.append(Harness(name, h_template(name, src, "exec"), units=[(E_PY, "AstEval.aeval")], replay=replay_template, max_paths=3000))
+    hs.append(Harness("adequacy.native-differential", b_adequacy, units=[(E_PY, "AstEval.aeval")], kind="bounded"))
     return hs
